@@ -94,7 +94,7 @@ def distinct(rnd, k, lo=-6, hi=6):
     return out
 
 
-def gen_case(rnd, cname, prop, shape=None, mask_p=None, force_dt=None, zero_weight=False):
+def gen_case(rnd, cname, prop, shape=None, mask_p=None, force_dt=None, zero_weight=False, many=False):
     hostile = prop in ("C04", "C13")
     fuzzy = cname in cc.FUZZY_IN
     forced_mask = mask_p
@@ -109,7 +109,7 @@ def gen_case(rnd, cname, prop, shape=None, mask_p=None, force_dt=None, zero_weig
         mask_p = 1.0       # an input with no valid cell at all (e.g. the result of a division by an all-zero layer)
     n = 1
     if cname in cc.NARY:
-        n = rnd.choice([1, 2, 2, 3, 3, 4, 5])
+        n = rnd.choice([1, 2, 2, 3, 3, 4, 5]) if not many else rnd.randint(9, 12)
         if cname == "FuzzyXOr":
             n = max(n, 2)
     elif cname in cc.BINARY:
@@ -226,10 +226,14 @@ def gen_case(rnd, cname, prop, shape=None, mask_p=None, force_dt=None, zero_weig
             raws[-1] = raws[0]
         rng = (-9, 9) if hostile else ((-1, 1) if cname.startswith("Cvt") and rnd.random() < 0.7 else (-4, 4))
         ys = [rnum(rnd, *rng) for _ in range(k if not (errorish and rnd.random() < 0.4) else k + 1)]
+        if rnd.random() < 0.25 and not errorish:
+            ys = [rnd.randint(-1, 1) if cname.startswith("Cvt") else rnd.randint(-3, 3) for _ in ys]      # whole numbers written without a decimal point
         p["RawValues"] = raws
         p["NormalValues" if cname.startswith("Normalize") else "FuzzyValues"] = ys
         if "Cat" in cname:
             p["DefaultNormalValue" if cname == "NormalizeCat" else "DefaultFuzzyValue"] = rnum(rnd, *rng)
+            if all(isinstance(y, int) for y in ys) and rnd.random() < 0.8:
+                p["DefaultNormalValue" if cname == "NormalizeCat" else "DefaultFuzzyValue"] = rnd.choice([0.5, -0.25, 0.75])
     elif cname in ("NormalizeMeanToMid", "CvtToFuzzyMeanToMid"):
         p["IgnoreZeros"] = rnd.random() < 0.4
         rng = (-9, 9) if hostile else (-1, 1)
@@ -250,6 +254,8 @@ def gen_case(rnd, cname, prop, shape=None, mask_p=None, force_dt=None, zero_weig
             p["TrueThreshold"] = rnd.choice([0, 0.0]) if rnd.random() < 0.15 else rnum(rnd)
         if rnd.random() < 0.7:
             p["FalseThreshold"] = rnd.choice([0, 0.0]) if rnd.random() < 0.15 else rnum(rnd)
+        if rnd.random() < 0.12:
+            p["TrueThreshold"], p["FalseThreshold"] = rnd.choice([(1, -1), (1.0, -1.0), (-1, 1)])       # "already on the fuzzy scale"
         if force_dt is not None and rnd.random() < 0.7:     # integer thresholds inside the data range of an integer raster
             for kk in ("TrueThreshold", "FalseThreshold"):
                 if kk in p:
@@ -394,6 +400,11 @@ def main():
                 g = gen_case(rnd, cname, prop, mask_p=0.2, zero_weight=True)
                 if g is not None:
                     jobs.append((cname, g[0], g[1]))
+        if cname in cc.NARY:           # nine to twelve layers, on a vector and on grids
+            for shp in ((4,), (3, 4), (2, 3, 2)):
+                g = gen_case(rnd, cname, prop, shape=shp, mask_p=0.2, many=True)
+                if g is not None:
+                    jobs.append((cname, g[0], g[1]))
     dist["stratified_cases"] = len(jobs) - before
     n += len(jobs) - before
     while len(jobs) < n:
@@ -519,6 +530,22 @@ def main():
             same = (o[0] == o2[0]) and (o[1] == o2[1] if o[0] == "err" else same_obs(canon(o[1]), canon(o2[1]), Fr(1, 1 << 40)))
             if not same and not (o[0] == "err" and o[1] in ("MixedArrayShapes",)):
                 fails.append({"sig": "%s:order:%s" % (prop, cname), "what": "%s gives %s for one input order and %s for another" % (cname, summarize(o), summarize(o2)), "replay": dict(replay, other_order=perm)})
+    if prop == "C06":
+        # the definitions hold whatever the process-wide floating-point and warning configuration: under numpy.seterr(divide, invalid, over = "raise")
+        # and warnings turned into errors (pytest -W error, a strict host application) every case gives what it gave before
+        import warnings
+        dist["strict_fp_configuration"] = 0
+        for cname, arrays, p in jobs[:: max(1, len(jobs) // 150)]:
+            o1 = run_impl(cname, arrays, p)
+            with numpy.errstate(divide="raise", invalid="raise", over="raise"), warnings.catch_warnings():
+                warnings.simplefilter("error")
+                o2 = run_impl(cname, arrays, p)
+            evaluations += 1
+            dist["strict_fp_configuration"] += 1
+            same = (o1[0] == o2[0]) and (o1[1] == o2[1] if o1[0] == "err" else same_obs(canon(o1[1]), canon(o2[1]), Fr(1, 1 << 40)))
+            if not same:
+                fails.append({"sig": "C06:strict-configuration:%s" % cname, "what": "%s gives %s under numpy.seterr(divide='raise', invalid='raise', over='raise') with warnings as errors, and %s otherwise" % (cname, summarize(o2), summarize(o1)),
+                              "replay": dict(describe(cname, arrays, p), configuration="numpy.seterr(divide='raise', invalid='raise', over='raise'); warnings.simplefilter('error')")})
     if prop == "C04":
         # a fuzzy result stays in [-1, +1] for as long as it exists: after every command that CONSUMES fuzzy results has run, its
         # inputs (the results of other fuzzy commands) are still what they were
